@@ -4,8 +4,12 @@ from collections import defaultdict
 LEVELS = ['debug', 'info', 'warning', 'error']
 
 
-def messages(seq, slug):
-    return [f'tcv|{seq}|{i}|{slug}' for i in range(1 + seq % 3)]
+def messages(seq, slug, threshold=10):
+    """The tagged messages run `seq` emits, at levels debug..error in turn; only those at or above the logger's
+    threshold reach the log."""
+    import logging
+    return [f'tcv|{seq}|{i}|{slug}' for i in range(1 + seq % 3)
+            if getattr(logging, LEVELS[(seq + i) % 4].upper()) >= threshold]
 
 
 def records(seq):
